@@ -45,6 +45,10 @@ PROPS = {
     "C09": dict(prop_file="props/C09.v", generators=[], module="harness.p_hist",
                 slice="Construct.v vs Network on construction histories and the malformed-path stream",
                 trusted=["no axioms", "Construct.v as model of the construction calls on networkx.DiGraph (tied by the history correspondence)"]),
+    "C07": dict(prop_file="props/C07.v", generators=ENG, module="harness.p_dyn",
+                slice="Blocks.v trees vs NumPy/CasADi; every graph the implementation's is_valid accepts is stepped and compiled",
+                trusted=DYN_TRUST + ["PARTIAL: Python exceptions outside the modelled failure points, NumPy/CasADi shape rules and IEEE "
+                                     "overflow are covered by the dynamic runs only", "ToFunction.v (hand-written; tied by the compile correspondence)"]),
     "C10": dict(prop_file="props/C10.v", generators=ENG, module="harness.p_dyn",
                 slice="Blocks.v trees vs CasADi functions; Jacobian sparsity vs variable sets of the Spec trees",
                 trusted=DYN_TRUST + ["C10 is stated on Spec.v values; C01 identifies them with the model's outputs"]),
